@@ -196,8 +196,32 @@ SpecInfer(rec) ==
                              \o (IF Len(a) = 1 THEN <<>> ELSE <<a2[Len(a2) - 1]>>)
                              \o (IF Len(b) = 1 THEN <<>> ELSE <<b2[Len(b2)]>>), d)
 
+\* einsum: rec.subs[a] = the index labels (small integers) of operand a,
+\* rec.out = the labels of the result (explicit form) or rec.implicit = TRUE
+\* (labels occurring exactly once, in ascending order).  A label's extent is
+\* the common non-unit length of all its occurrences (length 1 broadcasts).
+EinsumInfer(rec) ==
+  LET ops == rec.operands subs == rec.subs
+      labels == UNION {SeqRange(subs[a]) : a \in DOMAIN subs}
+      lens(l) == UNION {{ops[a].shape[j] : j \in {q \in DOMAIN subs[a] : subs[a][q] = l}}
+                        : a \in {z \in DOMAIN subs : Len(subs[z]) = Len(ops[z].shape)}}
+      ext(l) == IF lens(l) \ {1} = {} THEN 1 ELSE CHOOSE x \in lens(l) \ {1} : TRUE
+      count(l) == LET RECURSIVE C(_, _)
+                      C(a, j) == IF a > Len(subs) THEN 0
+                                 ELSE IF j > Len(subs[a]) THEN C(a + 1, 1)
+                                 ELSE (IF subs[a][j] = l THEN 1 ELSE 0) + C(a, j + 1)
+                  IN C(1, 1)
+      RECURSIVE Asc(_)
+      Asc(S) == IF S = {} THEN <<>>
+                ELSE LET m == CHOOSE x \in S : \A y \in S : x <= y IN <<m>> \o Asc(S \ {m})
+      out == IF rec.implicit THEN Asc({l \in labels : count(l) = 1}) ELSE rec.out
+  IN IF \E a \in DOMAIN subs : Len(subs[a]) # Len(ops[a].shape) THEN Reject
+     ELSE IF \E l \in labels : Cardinality(lens(l) \ {1}) > 1 THEN Reject
+     ELSE IF ~AllDistinct(out) \/ \E j \in DOMAIN out : out[j] \notin labels THEN Reject
+     ELSE Accept([j \in DOMAIN out |-> ext(out[j])], ResultType(ops))
+
 Clause(rec) ==
-  LET sp == SpecInfer(rec) IN
+  LET sp == IF rec.cls = "einsum" THEN EinsumInfer(rec) ELSE SpecInfer(rec) IN
   IF rec.np.ok # sp.ok THEN "oracle_accept"
   ELSE IF sp.ok /\ rec.np.shape # sp.shape THEN "oracle_shape"
   ELSE IF sp.ok /\ rec.np.dtype # sp.dtype THEN "oracle_dtype"
